@@ -4,7 +4,7 @@
 (* object universe and its states, shared by the model-checking instance   *)
 (* (MC_Semantics) and the generator (Gen_Core).                            *)
 (***************************************************************************)
-EXTENDS Grammar
+EXTENDS Syntax
 
 CONSTANTS Mode,        \* "pre" | "eff"
           Depth,       \* 1: members are literals; 2: nested and/or/forall members
